@@ -497,6 +497,7 @@ class Volume:
                 continue
             name11 = s[:11]
             long_name = self._assemble(pend, name11)
+            nslots = len(pend) + 1
             pend = []
             if name11[0] == 0x05:
                 name11 = b"\xE5" + name11[1:]
@@ -505,7 +506,7 @@ class Volume:
             short = base + ("." + ext if ext else "")
             (_, _, ntres, _tenth, ctime, cdate, adate, hi, wtime, wdate, lo, size) = struct.unpack("<11sBBBHHHHHHHL", s)
             out.append({"name": long_name if long_name is not None else short, "short": short, "raw11": bytes(s[:11]),
-                        "long": long_name, "attr": attr, "cluster": (hi << 16) | lo, "size": size, "slot": idx,
+                        "long": long_name, "attr": attr, "cluster": (hi << 16) | lo, "size": size, "slot": idx, "nslots": nslots,
                         "cdate": cdate, "ctime": ctime, "adate": adate, "wdate": wdate, "wtime": wtime})
         return out
 
